@@ -52,7 +52,10 @@ Record ivehicle := mkIVehicle {
   iv_has_start : bool;           (* start_location present *)
   iv_has_end : bool;
   iv_min_stops : Z;              (* min_stops (0 when absent) *)
-  iv_min_stops_pen : Z           (* min_stops_penalty *)
+  iv_min_stops_pen : Z;          (* min_stops_penalty *)
+  (* stop_duration_multiplier as a fraction num/den (1 and 1 when absent; den > 0) *)
+  iv_mult_num : Z;
+  iv_mult_den : Z
 }.
 
 (* a precedence unit: connected component of the precedes/succeeds graph *)
@@ -70,7 +73,8 @@ Record options := mkOptions {
   o_f_activation : Z; o_f_travel : Z; o_f_vehicles_duration : Z; o_f_unplanned : Z;
   o_dis_dgroups : bool;          (* duration groups disabled: group durations count as 0 *)
   (* more objective factors: early arrival, late arrival, min stops, stop balance *)
-  o_f_early : Z; o_f_late : Z; o_f_min_stops : Z; o_f_stop_balance : Z
+  o_f_early : Z; o_f_late : Z; o_f_min_stops : Z; o_f_stop_balance : Z;
+  o_dis_multipliers : bool       (* stop duration multipliers disabled: every multiplier counts as 1 *)
 }.
 
 (* a user-supplied constraint (C19): an exact check with an estimate that
@@ -113,7 +117,7 @@ Definition is_last_stop (inp : input) (s : nat) : bool :=
 
 Definition dflt_stop : istop := mkIStop [] 0 [] None 0 [] None 0 0.
 Definition dflt_vehicle : ivehicle :=
-  mkIVehicle None [] 0 None None None None None [] 0 true true 0 0.
+  mkIVehicle None [] 0 None None None None None [] 0 true true 0 0 1 1.
 Definition get_stop (inp : input) (s : nat) : istop := nth s (in_stops inp) dflt_stop.
 Definition get_vehicle (inp : input) (v : nat) : ivehicle := nth v (in_vehicles inp) dflt_vehicle.
 
@@ -152,8 +156,21 @@ Definition dgroup_extra (inp : input) (from to : nat) : Z :=
       | None => dgroup_duration inp g
       end
   end.
+(* the unscaled time spent at [to] coming from [from]: [stop_duration_on] below
+   for a vehicle with multiplier 1 (or with the multipliers disabled) *)
 Definition stop_duration_at (inp : input) (from to : nat) : Z :=
   stop_duration inp to + dgroup_extra inp from to.
+
+(* per-vehicle stop duration multiplier (model_vehicle_type.go TemporalValues,
+   factory stop duration multiplier expression): time.Duration(seconds * m),
+   a truncation of a non-negative value, applied to the own duration and to
+   the group duration separately; the identity when multipliers are disabled *)
+Definition scale_duration (inp : input) (v : nat) (d : Z) : Z :=
+  if o_dis_multipliers (in_opts inp) then d
+  else let ve := get_vehicle inp v in
+       if (iv_mult_den ve <=? 0) then d else (d * iv_mult_num ve) / iv_mult_den ve.
+Definition stop_duration_on (inp : input) (v : nat) (from to : nat) : Z :=
+  scale_duration inp v (stop_duration inp to) + scale_duration inp v (dgroup_extra inp from to).
 
 Definition stop_windows (inp : input) (s : nat) : list (Z * Z) :=
   if o_dis_windows (in_opts inp) then []
@@ -204,12 +221,12 @@ Definition to_earliest_start (ws : list (Z * Z)) (arrival : Z) : Z :=
   end.
 
 (* TemporalValues: (travel, arrival, start, end) *)
-Definition temporal_values (inp : input) (departure : Z) (from to : nat) : Z * Z * Z * Z :=
+Definition temporal_values (inp : input) (v : nat) (departure : Z) (from to : nat) : Z * Z * Z * Z :=
   let travel := travel_duration inp from to in
   let arrival := departure + travel in
   let es := to_earliest_start (stop_windows inp to) arrival in
   let start := Z.max arrival es in
-  (travel, arrival, start, start + stop_duration_at inp from to).
+  (travel, arrival, start, start + stop_duration_on inp v from to).
 
 (* ------------------------------------------------------------------ *)
 (* Expressions cached per stop: one level per resource, then distance  *)
@@ -271,7 +288,7 @@ Definition first_cell (inp : input) (v : nat) : cell :=
 
 (* one step of the forward pass of isFeasible *)
 Definition next_cell (inp : input) (v : nat) (p : cell) (s : nat) : cell :=
-  let '(travel, arrival, start, en) := temporal_values inp (c_end p) (c_stop p) s in
+  let '(travel, arrival, start, en) := temporal_values inp v (c_end p) (c_stop p) s in
   let wait := if is_last_stop inp s then 0 else start - arrival in
   mkCell s travel (c_cumtravel p + travel) arrival start en
          (map (fun r => nthZ (c_levels p) r + resource_value inp v r s) (seqn (in_nres inp)))
